@@ -100,9 +100,7 @@ def h_capitalflow(run, cfg):
         run.check_near(st.flows.iloc[i], flow, 1e-6, 'flow-row', str(idx[i]))
 
 
-def h_scale(run, cfg):
-    """index free of the capital multiple: fractional positions, proportional commission"""
-    B = bt()
+def _scale_script(B, run, cfg, lam):
     C = B.core
     dts = dates(4)
     PR = {'a': [100.0, 105.0, 95.0, 101.5], 'b': [37.5, 33.0, 41.25, 40.0]}
@@ -114,38 +112,33 @@ def h_scale(run, cfg):
         s.set_commissions(lambda q, p: fee_b * abs(q) * p)
     s.setup(data)
     s.update(dts[0])
-    lam = run.real('capital', 0.5, 10 ** 7)
     s.adjust(lam)
-    plan_w = cfg['weights']            # per date: (wa, wb, flow multiple)
+    for i, (wa, wb, fl) in enumerate(cfg['weights']):
+        s.update(dts[i])
+        if fl:
+            s.adjust(lam * fl)
+        base = s.value
+        s.rebalance(wa, 'a', base=base, update=False)
+        s.rebalance(wb, 'b', base=base, update=False)
+        s.update(dts[i])
+    return s
+
+
+def h_scale(run, cfg):
+    """the index of a multi-date script is the same for every capital multiple (fractional positions, proportional commission): the run with a
+    symbolic capital is compared, on every path, with the same script at capital 1e6"""
+    B = bt()
+    lam = run.real('capital', 0.5, 10 ** 7)
     try:
-        for i, (wa, wb, fl) in enumerate(plan_w):
-            s.update(dts[i])
-            if fl:
-                s.adjust(lam * fl)
-            base = s.value
-            s.rebalance(wa, 'a', base=base, update=False)
-            s.rebalance(wb, 'b', base=base, update=False)
-            s.update(dts[i])
+        s = _scale_script(B, run, cfg, lam)
+        ref = _scale_script(B, run, cfg, 1000000.0)
     except Exception as e:
         run.fail('scale-run-completes', repr(e))
-    if s.bankrupt:
+    if s.bankrupt or ref.bankrupt:
         run.end('bankrupt')
-    P = s.prices
-    ref = cfg.get('ref')
-    for i in range(len(plan_w)):
-        v = P.iloc[i]
-        if run.mode == 'sym':
-            from symbt.sym import Sym
-            if isinstance(v, Sym) and not v.is_concrete():
-                # not syntactically free of the capital variable: ask the solver whether two capitals give different prices
-                lam2 = run.real('capital2', 0.5, 10 ** 7)
-                run.fail('index-independent-of-capital', 'price on date %d depends on capital: %r' % (i, v))
-            run.note('price%d' % i, float(v.const()) if isinstance(v, Sym) else float(v))
-        else:
-            run.note('price%d' % i, float(v))
-            if ref is not None:
-                run.check_near(v, ref[i], 1e-6, 'index-independent-of-capital', 'date %d: %r vs reference %r' % (i, v, ref[i]))
-    run.check(True, 'index-independent-of-capital')
+    P, R = s.prices, ref.prices
+    for i in range(len(cfg['weights'])):
+        run.check_near(P.iloc[i], R.iloc[i], 1e-7, 'index-independent-of-capital', 'date %d: %r vs %r at capital 1e6' % (i, P.iloc[i], R.iloc[i]))
 
 
 HARNESSES = {'recurrence': h_recurrence, 'scale': h_scale, 'flowneutral': h_flowneutral, 'capitalflow': h_capitalflow}
